@@ -142,3 +142,27 @@ def collect_function(fn):
 def truth_table(atoms):
     for bits in itertools.product((False, True), repeat=len(atoms)):
         yield dict(zip(atoms, bits))
+
+
+def raw_string_value_reads(repo, module_prefixes):
+    """Reads of `<node>.raw_value` - the source text between the quotes of a libcst string node, escape sequences NOT
+    processed - in the given modules.  The value of a string literal is `evaluated_value` (or literal_eval of the code);
+    where a rendered string is read back, raw_value agrees with it only while repr() had nothing to escape."""
+    import ast as _ast
+
+    hits = []
+    for mod in repo.modules.values():
+        if not any(mod.name == p or mod.name.startswith(p + ".") for p in module_prefixes):
+            continue
+        for n in _ast.walk(mod.tree):
+            if isinstance(n, _ast.Attribute) and n.attr == "raw_value" and isinstance(n.ctx, _ast.Load):
+                hits.append((mod, n))
+    return hits
+
+
+def raw_string_value_selfcheck() -> bool:
+    """The detector matches the construct it is written for (a rule whose expected count is zero must not be blind)."""
+    import ast as _ast
+
+    t = _ast.parse("def f(expr):\n    return expr.raw_value\n")
+    return any(isinstance(n, _ast.Attribute) and n.attr == "raw_value" for n in _ast.walk(t))
